@@ -6,8 +6,8 @@ from gen import *
 from sessions import *
 import histproj, p_c08
 
-ENTRIES = ["x", "xy", "y", "x\ny", "abc", "xyz", "ab", "two words", "é中"]
-INPROGRESS = ["", "x", "xy", "z", "a"]
+ENTRIES = ["x", "xy", "y", "x\ny", "abc", "xyz", "ab", "two words", "é中", "a.c", "ls *", "ls main.go", "f(x", "*.go", "a+b", "x[1]"]
+INPROGRESS = ["", "x", "xy", "z", "a", "a.c", "ls *", "f(x", "*.", "a+", "(", "x[", "a.", "."]
 NAV = ["previous-history", "next-history", "beginning-of-history", "end-of-history", "up-line-or-history", "down-line-or-history",
        "history-search-backward", "history-search-forward", "history-substring-search-backward", "history-substring-search-forward",
        "beginning-of-buffer-or-history", "end-of-buffer-or-history", "beginning-of-line-hist", "end-of-line-hist", "up-line-or-search",
@@ -74,8 +74,13 @@ def run(rep, tier, seed):
             if ip:
                 sess.append(keys(ip))
             sess.append(keys(rng.choice([b"\x12", b"\x13"])))
-            for ch in rng.choice(["x", "xy", "y", "b", "q", "two", ""]):
+            pat = rng.choice(["x", "xy", "y", "b", "q", "two", "", "a.", "s *", "(x"])
+            for ch in pat:
                 sess.append(keys(ch))
+            if pat and rng.random() < 0.4:
+                # erase the search text again, completely or not
+                for _ in range(rng.choice([len(pat), len(pat), 1])):
+                    sess.append(keys(b"\x7f"))
             for _ in range(rng.randint(0, 2)):
                 sess.append(keys(rng.choice([b"\x12", b"\x13"])))
             sess.append(keys(rng.choice([b"\r", b"\x07", b"\x1b", b"\x03"])))
